@@ -1,8 +1,8 @@
 #!/bin/sh
-# run every stored seeded change against the quick check of the property it targets; one summary line each
+# run every stored seeded change (or those named in $SEEDS, a glob list relative to /verif) against the quick check of the property it targets; one summary line each
 cd /verif
 export VERIF_NO_SHRINK=1   # the sweep only needs the verdicts
-for d in seeded/C*-[abcde]; do
+for d in ${SEEDS:-seeded/C*-[abcdef]}; do
   id=$(basename $d | cut -d- -f1)
   out=$(sh tools/try_seed.sh /verif/$d/patch.diff quick $id 2>&1)
   rc=$(echo "$out" | grep -o "exit=[0-9]*" | head -1)
